@@ -402,3 +402,72 @@ Example C01_example_source_space :
   src_space_sample_name_from_sample_id (pyspace_of ex_space) 0 = Ok [115] /\
   src_space_sample_id_from_sample_name (pyspace_of ex_space) [117] = Err 36.
 Proof. vm_compute. repeat split. Qed.
+
+(* ---- the DECODE direction and supplied batchie-made mappings (gap review g1, C01 gaps 1 and 2; Proofs/C01Decode.v) ---- *)
+From Batchie Require Import Proofs.C01Decode.
+
+(* the mapping a screen builds lists exactly the (name, dose) pairs of its rows, each once *)
+Theorem C01_mapping_keys_are_row_keys : forall rows a ctrl sm og mg s,
+  mk_screen rows a ctrl None sm og mg = Ok s ->
+  NoDup (map fst (s_tmap s)) /\ forall k, In k (map fst (s_tmap s)) <-> row_keys s k.
+Proof. exact mapping_keys_are_row_keys. Qed.
+Print Assumptions C01_mapping_keys_are_row_keys.
+
+(* ... and decodes: an id of the mapping is the sentinel exactly on controls, a non-control id belongs to exactly one
+   (name, dose), and looking a (name, dose) up returns the id stored with it - with C01_decode_treatments: an experiment's
+   non-control id decodes through the mapping to EXACTLY that experiment's (name, dose) *)
+Theorem C01_mapping_decodes : forall rows a ctrl sm og mg s,
+  mk_screen rows a ctrl None sm og mg = Ok s ->
+  (forall k id, In (k, id) (s_tmap s) -> (id = CONTROL_SENTINEL_VALUE <-> (snd k <= 0 \/ fst k = ctrl))) /\
+  (forall k1 k2 id, In (k1, id) (s_tmap s) -> In (k2, id) (s_tmap s) -> id <> CONTROL_SENTINEL_VALUE -> k1 = k2) /\
+  (forall k id, In (k, id) (s_tmap s) -> tid_of (s_tmap s) k = id).
+Proof. exact mapping_decodes. Qed.
+Print Assumptions C01_mapping_decodes.
+
+Theorem C01_sample_mapping_decodes : forall rows a ctrl tm og mg s,
+  mk_screen rows a ctrl tm None og mg = Ok s ->
+  NoDup (map fst (s_smap s)) /\ (forall n, In n (map fst (s_smap s)) <-> exists r, In r (s_rows s) /\ r_sample r = n) /\
+  (forall n1 n2 id, In (n1, id) (s_smap s) -> In (n2, id) (s_smap s) -> n1 = n2).
+Proof. exact sample_mapping_decodes. Qed.
+Print Assumptions C01_sample_mapping_decodes.
+
+(* a screen constructed WITH the mapping batchie built for another screen (same control name; any rows, arity, flags):
+   construction succeeding already means the data is covered; the sentinel clause and equal-ids-iff-equal-keys hold on it *)
+Theorem C01_control_iff_supplied : forall rows a ctrl sm og mg s,
+  mk_screen rows a ctrl None sm og mg = Ok s ->
+  forall sub a' b sm' og' mg' s',
+  mk_screen sub a' ctrl (Some (s_tmap s, b)) sm' og' mg' = Ok s' ->
+  forall k, row_keys s' k ->
+  (tid_of (s_tmap s') k = CONTROL_SENTINEL_VALUE <-> (snd k <= 0 \/ fst k = ctrl)).
+Proof. exact control_iff_supplied. Qed.
+Print Assumptions C01_control_iff_supplied.
+
+Theorem C01_treatment_ids_injective_supplied : forall rows a ctrl sm og mg s,
+  mk_screen rows a ctrl None sm og mg = Ok s ->
+  forall sub a' b sm' og' mg' s',
+  mk_screen sub a' ctrl (Some (s_tmap s, b)) sm' og' mg' = Ok s' ->
+  forall k1 k2, row_keys s' k1 -> row_keys s' k2 ->
+  tid_of (s_tmap s') k1 <> CONTROL_SENTINEL_VALUE ->
+  (tid_of (s_tmap s') k1 = tid_of (s_tmap s') k2 <-> k1 = k2).
+Proof. exact treatment_ids_injective_supplied. Qed.
+Print Assumptions C01_treatment_ids_injective_supplied.
+
+(* its ids are the superset screen's ids of the same (name, dose), below the superset's space size, which is also its own *)
+Theorem C01_ids_of_superset_supplied : forall rows a ctrl sm og mg s,
+  mk_screen rows a ctrl None sm og mg = Ok s ->
+  forall sub a' b sm' og' mg' s',
+  mk_screen sub a' ctrl (Some (s_tmap s, b)) sm' og' mg' = Ok s' ->
+  forall k, row_keys s' k ->
+  tid_of (s_tmap s') k = tid_of (s_tmap s) k /\ tid_of (s_tmap s') k < space_n_treatments s /\
+  space_n_treatments s' = space_n_treatments s.
+Proof. exact ids_of_superset_supplied. Qed.
+Print Assumptions C01_ids_of_superset_supplied.
+
+Theorem C01_sample_ids_injective_supplied : forall rows a ctrl tm og mg s,
+  mk_screen rows a ctrl tm None og mg = Ok s ->
+  forall sub a' ctrl' tm' b og' mg' s',
+  mk_screen sub a' ctrl' tm' (Some (s_smap s, b)) og' mg' = Ok s' ->
+  forall r1 r2, In r1 (s_rows s') -> In r2 (s_rows s') ->
+  (nid_of (s_smap s') (r_sample r1) = nid_of (s_smap s') (r_sample r2) <-> r_sample r1 = r_sample r2).
+Proof. exact sample_ids_injective_supplied. Qed.
+Print Assumptions C01_sample_ids_injective_supplied.
